@@ -1,6 +1,6 @@
 //! spec -> impl: execute cases / behaviours emitted by TLC.
 use serde_json::Value;
-use sos_verif_harness::{account_world, eventlog_world, summary::Summary, tree_world};
+use sos_verif_harness::{account_world, eventlog_world, sync_world, summary::Summary, tree_world};
 use std::io::BufRead;
 
 fn read_lines(path: &str) -> Vec<Value> {
@@ -77,6 +77,27 @@ fn main() {
                         &path, &backends, &scratch, &mut out, &prop,
                     )
                     .await
+                    {
+                        eprintln!("harness error: {e:?}");
+                        std::process::exit(3);
+                    }
+                }
+            });
+        }
+        "sync" => {
+            // replay sync <paths.ndjson> <scratch> <prop>
+            let scratch = std::path::PathBuf::from(&args[3]);
+            let prop = args.get(4).cloned().unwrap_or_default();
+            sos_verif_harness::init_audit(&scratch);
+            let rt = tokio::runtime::Builder::new_multi_thread()
+                .worker_threads(3)
+                .enable_all()
+                .build()
+                .unwrap();
+            rt.block_on(async {
+                for path in read_lines(&args[2]) {
+                    if let Err(e) =
+                        sync_world::run_path(&path, &scratch, &mut out, &prop, &known).await
                     {
                         eprintln!("harness error: {e:?}");
                         std::process::exit(3);
